@@ -225,3 +225,23 @@ Fixpoint failing_fixed_from (i : N) (cs : list case) : list (N * N) :=
               if N.eqb k 0 then failing_fixed_from (N.succ i) r else (i, k) :: failing_fixed_from (N.succ i) r
   end.
 Definition failing_fixed (cs : list case) : list (N * N) := failing_fixed_from 0%N cs.
+
+(* the same for the recommended variant of the repair (model/C05_fixed2.v; VERIF_C05_FIXED=2) *)
+From AV Require Import model.C05_fixed2.
+Definition m_out_f2 (c : case) : list change * bool :=
+  balance2 (c_dflt c) (fun s => nth s (c_rank c) 0) (fun d => nth d (c_devrank c) 0) (c_min c)
+           (c_raw c) (c_sro c) (c_repl c) (c_desired c).
+Definition model_f2_b (c : case) : bool :=
+  negb (no_ties c) ||
+  (let '(chs, lost) := m_out_f2 c in
+   peq (psort (trashes chs)) (psort (o_trash c)) && peq (psort (pulls chs)) (psort (o_pull c)) &&
+   Bool.eqb lost (o_lost c)).
+Definition check_case_fixed2 (c : case) : N :=
+  ((if model_f2_b c then 0 else 1) + (if spec_b c then 0 else 2))%N.
+Fixpoint failing_fixed2_from (i : N) (cs : list case) : list (N * N) :=
+  match cs with
+  | [] => []
+  | c :: r => let k := check_case_fixed2 c in
+              if N.eqb k 0 then failing_fixed2_from (N.succ i) r else (i, k) :: failing_fixed2_from (N.succ i) r
+  end.
+Definition failing_fixed2 (cs : list case) : list (N * N) := failing_fixed2_from 0%N cs.
